@@ -504,6 +504,58 @@ func c07Windows(c *rt.Ctx) {
 	c.Rep.Sample(map[string]any{"kind": "sweep of Windows-typed instances", "targets": "MemFS, OrefaFS, BasePathFS, RoFS, Sub view, with a second volume", "path_domain": c07WinPaths[:16]}, 1)
 }
 
+// c07SeekExtremes: positions at the ends of the int64 range. Seek with offsets whose sum with the current position or
+// the size overflows, then reads, queries and path-level calls on the same file: everything returns (a refused Seek,
+// an io.EOF), nothing panics, no lock stays behind. Only reading calls follow an extreme position: writing at 2^62 is
+// the allocation domain the sweep leaves out.
+func c07SeekExtremes(c *rt.Ctx) {
+	offs := []int64{math.MaxInt64, math.MaxInt64 - 1, math.MaxInt64 - 4, math.MinInt64, math.MinInt64 + 1, -1, 0, 4, 1 << 62, -(1 << 62)}
+	for _, fsType := range []string{"MemFS", "OrefaFS"} {
+		for _, first := range []int64{0, 4, 10} {
+			for _, off := range offs {
+				for whence := 0; whence <= 2; whence++ {
+					v := newBase(fsType)
+					_ = v.MkdirAll("/w", 0o755)
+					_ = v.WriteFile("/w/f", []byte("0123456789"), 0o644)
+					f, err := v.OpenFile("/w/f", os.O_RDWR, 0)
+					if err != nil {
+						continue
+					}
+					var hist []string
+					step := func(what string, fn func()) bool {
+						hist = append(hist, what)
+						c07Log(fsType + ": " + what)
+						verdict, detail := c07Invoke(reflect.ValueOf(fn), nil)
+						c.Rep.Case(fmt.Sprintf("%s|seek-extremes|%s|%s", fsType, strings.SplitN(what, "(", 2)[0], verdict), true)
+						if verdict != "returns" {
+							c.Disagree(fmt.Sprintf("%s|seek-extremes|%s|%s", fsType, strings.SplitN(what, "(", 2)[0], verdict), fmt.Sprintf("%s: after %v, %s %s: %s", fsType, hist[:len(hist)-1], what, verdict, detail), map[string]any{"fs": fsType, "history": hist})
+							return false
+						}
+						return true
+					}
+					buf := make([]byte, 8)
+					ok := step(fmt.Sprintf("Seek(%d,0)", first), func() { _, _ = f.Seek(first, 0) }) &&
+						step(fmt.Sprintf("Seek(%d,%d)", off, whence), func() {
+							if p, err := f.Seek(off, whence); err == nil && p < 0 {
+								panic(fmt.Sprintf("Seek returns the negative position %d and no error", p))
+							}
+						}) &&
+						step("Read(8 bytes)", func() { _, _ = f.Read(buf) }) &&
+						step(fmt.Sprintf("ReadAt(8 bytes,%d)", off), func() { _, _ = f.ReadAt(buf, off) }) &&
+						step("Seek(0,1)", func() { _, _ = f.Seek(0, 1) }) &&
+						step("Stat()", func() { _, _ = f.Stat() }) &&
+						step("Truncate(path,3)", func() { _ = v.Truncate("/w/f", 3) }) &&
+						step("Chmod(path)", func() { _ = v.Chmod("/w/f", 0o600) }) &&
+						step("ReadFile(path)", func() { _, _ = v.ReadFile("/w/f") }) &&
+						step("Close()", func() { _ = f.Close() }) &&
+						step("Remove(path)", func() { _ = v.Remove("/w/f") })
+					_ = ok
+				}
+			}
+		}
+	}
+}
+
 func c07Handles(name string, v avfs.VFS) []c07Target {
 	var out []c07Target
 	add := func(kind string, f avfs.File) {
@@ -692,6 +744,9 @@ func init() {
 
 			// ---- (a") composite helpers under an injected fault, on files around the buffer sizes: every call returns
 			c07Watched.Store(true)
+			if c.Shard == 3%c.NShards {
+				c07SeekExtremes(c)
+			}
 			c07Faults(c)
 
 			// ---- (b) schedules: every worker returns
